@@ -222,7 +222,8 @@ def compile_run(std, rows, work, idx):
     src = work / ('c17_%s_%d.cpp' % (std, idx))
     exe = work / ('c17_%s_%d' % (std, idx))
     gen_tu(rows, src)
-    cmd = ['g++', '-std=c++' + std, '-O0', '-w', '-DAMC_NONSTD_FEATURES', '-I' + str(D.REPO / 'include'), str(src), '-o', str(exe)]
+    cxx, level = ('clang++', std[5:]) if std.startswith('clang') else ('g++', std)
+    cmd = [cxx, '-std=c++' + level, '-O0', '-w', '-DAMC_NONSTD_FEATURES', '-I' + str(D.REPO / 'include'), str(src), '-o', str(exe)]
     rc, out, err, _ = D.run_proc(cmd, timeout=1800)
     if rc != 0:
         return None, 'compile failed (c++%s): %s' % (std, err[-1500:])
@@ -282,7 +283,7 @@ def compare(std, rows, table):
                     bad.append((rid, 'c++%s: %s of FixedCapacityVector<T,%d> must be noexcept under the documented condition but is not' % (std, what, n)))
                 if ef[k + '_forbidden'] and f[k]:
                     bad.append((rid, 'c++%s: %s of FixedCapacityVector<T,%d> is declared noexcept although it runs a throwing element operation' % (std, what, n)))
-        if 1 <= n <= 64 and std in ('17', '20'):
+        if 1 <= n <= 64 and std in ('17', '20', 'clang17', 'clang20'):
             s = table.get(('SET', rid))
             if s is None:
                 bad.append((rid, 'SET row missing'))
@@ -307,8 +308,10 @@ def parse_rid(rid):
     return pt(tpart), int(npart)
 
 
-def run(tier, seed, only_rows=None, stds=('11', '14', '17', '20')):
+def run(tier, seed, only_rows=None, stds=None):
     t0 = time.time()
+    if stds is None:  # clang++ 14 is the second compiler: the static contract may not depend on g++'s reading of a trait
+        stds = ('11', '14', '17', '20', 'clang17') if tier == 'quick' else ('11', '14', '17', '20', 'clang11', 'clang14', 'clang17', 'clang20')
     rows = only_rows if only_rows is not None else make_rows(tier, seed)
     work = D.BUILD / 'run' / ('C17_%d' % os.getpid())
     work.mkdir(parents=True, exist_ok=True)
